@@ -10,5 +10,6 @@ CONSTANTS
   MaxTx = 2
   WithTry = FALSE
   WithNoRS = FALSE
+  WithCb = FALSE
 INVARIANTS ImplAgrees
 CHECK_DEADLOCK FALSE
